@@ -214,6 +214,10 @@ Close ==
                        size |-> IF OBJSTM THEN xnum + 1 ELSE xnum,
                        kind |-> IF OBJSTM THEN "stream" ELSE "table", xnum |-> IF OBJSTM THEN xnum ELSE 0]
   /\ mode' = "closed" /\ UNCHANGED <<deferred, cur>>
+\* Close refused because the document-level structures hold an entry the file's
+\* version does not have (Info /Trapped before PDF 1.3): the file is not finished
+CloseBad == /\ mode = "idle" /\ Step /\ lastErr' = "metaVersion" /\ mode' = "failed"
+            /\ UNCHANGED <<xref, nextRef, deferred, pos, emitted, cur, written, trailer>>
 CloseWhileOpen == /\ mode = "stream" /\ Step /\ lastErr' = "inStream"
                   /\ UNCHANGED <<mode, xref, nextRef, deferred, pos, emitted, cur, written, trailer>>
 
@@ -235,7 +239,7 @@ Next == \/ Alloc \/ AllocN(2)
         \/ \E a, b, c \in ProgNums, v \in Vals : WC3(a, b, c, v)
         \/ WC0
         \/ \E why \in {"streamMember", "refMember", "genMember"} : WriteCompressedBad(why)
-        \/ Close \/ CloseWhileOpen
+        \/ Close \/ CloseBad \/ CloseWhileOpen
 Spec == Init /\ [][Next]_vars
 
 -----------------------------------------------------------------------------
